@@ -30,6 +30,7 @@ RULE = ("operations = encode of valid and of singly mutated assignments, decode 
         "database object used under both modes - and in a born-non-strict process.  Non-trivial = strict and non-strict outcomes differ; "
         "distinct = digest of the operation")
 ASSUMPTIONS = [
+    "the wall clock read by SYSTEM parameters is frozen in both workers (harness-side patch of the module attribute)",
     "outcome = normalised repr of the result or (exception class, message); memory addresses are masked",
     "the born-non-strict worker clears odxtools.exceptions.strict_mode before the package __init__ runs (importlib spec trick, no repository hook)",
 ]
@@ -374,6 +375,16 @@ def _worker(argv):
         ex.strict_mode = False
         spec.loader.exec_module(mod)
     import odxtools.exceptions as ex
+    # SYSTEM parameters without explicit value read the wall clock: both workers see one frozen instant, otherwise
+    # outcomes would depend on when each worker happens to reach an operation
+    import datetime as _dt
+    import odxtools.parameters.systemparameter as _sp
+
+    class _FrozenDatetime(_dt.datetime):
+        @classmethod
+        def now(cls, tz=None):
+            return cls(2024, 2, 29, 13, 37, 42, 123000, tzinfo=tz)
+    _sp.datetime = _FrozenDatetime
     with open(inp, "rb") as fh:
         ops = pickle.load(fh)
     out = []
